@@ -358,7 +358,7 @@ func analyseMapRoutine(c *Ctx, fn *ssa.Function) *mapRoutine {
 				if fv := path(e.Call.Call.Value); fv != want+".AppendFunc" {
 					bad("%s: %s dispatches through %s, expected %s.AppendFunc", c.InstrPos(e.Instr), p.side, fv, want)
 				}
-			} else if e.Callee.Name() != "appendAny" {
+			} else if e.Callee.Name() != "appendAny" && !isDispatchHelper(e.Callee) {
 				bad("%s: unexpected delegate %s", c.InstrPos(e.Instr), e.Callee.Name())
 			}
 		}
@@ -834,45 +834,24 @@ func analyseListRoutine(c *Ctx, fn *ssa.Function) *listRoutine {
 		bad("header count / data pointer unused")
 		return l
 	}
-	// element pointer phi: edges hdrP and unsafe.Add(phi, t.V.Size) (possibly behind an inner i != 0 merge)
-	var vphi *ssa.Phi
-	var walkPhi func(v ssa.Value, depth int)
-	seenPhi := map[*ssa.Phi]bool{}
-	strideOK, strideSeen := true, false
-	walkPhi = func(v ssa.Value, depth int) {
-		p, ok := v.(*ssa.Phi)
-		if !ok || seenPhi[p] {
-			return
-		}
-		seenPhi[p] = true
-		for _, e := range p.Edges {
-			switch x := e.(type) {
-			case *ssa.Phi:
-				walkPhi(x, depth+1)
-			case *ssa.Call:
-				if isBuiltin(x, "Add") {
-					strideSeen = true
-					if sz := path(x.Call.Args[1]); sz != elemDesc+".Size" {
-						strideOK = false
-						bad("element pointer advanced by %s, expected %s.Size", sz, elemDesc)
-					}
-					if bp, ok := x.Call.Args[0].(*ssa.Phi); ok {
-						walkPhi(bp, depth+1)
-					}
-				}
+	// element pointer: every unsafe.Add rooted at the header's data pointer advances by the element descriptor's Size
+	// (once per iteration) or computes base + i*Size
+	nAdd := 0
+	for _, b := range fn.Blocks {
+		for _, ins := range b.Instrs {
+			ad, ok := ins.(*ssa.Call)
+			if !ok || !isBuiltin(ad, "Add") || !rootedAt(ad.Call.Args[0], hdrP) {
+				continue
+			}
+			nAdd++
+			if ok2, what := strideOK(ad.Call.Args[1], elemDesc+".Size"); !ok2 {
+				bad("element pointer advanced by %s, expected %s.Size", what, elemDesc)
 			}
 		}
 	}
-	for _, r := range referrers(hdrP) {
-		if p, ok := r.(*ssa.Phi); ok {
-			vphi = p
-			walkPhi(p, 0)
-		}
-	}
-	if vphi == nil || !strideSeen {
+	if nAdd == 0 {
 		bad("no element pointer advanced per iteration")
 	}
-	_ = strideOK
 	// loop bound: some phi i with edges 0 and i+1, compared i < n
 	boundOK := false
 	for _, b := range fn.Blocks {
@@ -987,10 +966,10 @@ func analyseListRoutine(c *Ctx, fn *ssa.Function) *listRoutine {
 				if fv := path(e.Call.Call.Value); fv != elemDesc+".AppendFunc" {
 					bad("%s: dispatch through %s, expected %s.AppendFunc", c.InstrPos(e.Instr), fv, elemDesc)
 				}
-			} else if e.Callee.Name() != "appendAny" {
-				bad("%s: unexpected delegate %s", c.InstrPos(e.Instr), e.Callee.Name())
-			} else {
+			} else if e.Callee.Name() == "appendAny" {
 				l.viaAny = true
+			} else if !isDispatchHelper(e.Callee) {
+				bad("%s: unexpected delegate %s", c.InstrPos(e.Instr), e.Callee.Name())
 			}
 			parts = append(parts, part{what: "dyn", ev: e})
 		}
